@@ -86,6 +86,7 @@ type Obligation struct {
 	Inputs   []modelVar // for replay
 	File     string
 	All      map[string]string
+	NoLemmas bool // lemma proofs must not assume the lemma table
 }
 
 type modelVar struct {
